@@ -1,6 +1,7 @@
 """C07 - namespaces and includes reach other templates with the right context and URI.
 
-regen : group NsFlow (tools/regen_nsflow.py -> Generated/NsFlow.lean): the shape of the two import branches of
+regen : group PathCfg (C09's; Props/C07 imports Props/C09, so its Generated file is refreshed here too) and
+        group NsFlow (tools/regen_nsflow.py -> Generated/NsFlow.lean): the shape of the two import branches of
         codegen.write_variable_declares (plain / strict_undefined: _import_ns before the context) and of the two
         call sites of runtime._include_file (both run the target with the cleaned context); Props/C07 pins them
         with the obligations codegen_import_first_obligation / include_call_sites_obligation.
@@ -82,7 +83,7 @@ TRUSTED_EXTRA = [
 ]
 
 FUEL = 4000
-REGEN = ["NsFlow"]
+REGEN = ["NsFlow", "PathCfg"]   # PathCfg: Props/C07 imports Props/C09, whose obligations read Generated/PathCfg.lean
 
 # --------------------------------------------------------------------------- template descriptions
 # template = dict(page=[(name, default|None)], inherit=None|uri, nss=[ns], defs=[(name, isblock, items)], body=items)
